@@ -62,12 +62,77 @@ def definitions(syntax):
     return out
 
 
+_TIMEOUTS = [0]
+_LIMITED = []
+
+
+def _limit_memory():
+    """once per process: cap the data segment at 3 GB (a regular run needs < 100 MB per worker). On a tree where a corrupted
+    shared object makes expansions grow exponentially, a call can allocate gigabytes before the CPU-time alarm fires; with the
+    cap it gets a MemoryError instead (reported like any other difference) and the machine is not driven into swap"""
+    if not _LIMITED:
+        import resource
+        _LIMITED.append(True)
+        try:
+            soft, hard = resource.getrlimit(resource.RLIMIT_DATA)
+            cap = 3 << 30
+            if hard != resource.RLIM_INFINITY:
+                cap = min(cap, hard)
+            resource.setrlimit(resource.RLIMIT_DATA, (cap, hard))
+        except (ValueError, OSError):
+            pass
+
+
+
+class _Slow(Exception):
+    pass
+
+
+class _Timeout(BaseException):
+    pass
+
+
+def _alarm(signum, frame):
+    raise _Timeout()
+
+
+def _timed(f, what):
+    "f() under the CPU-time alarm; _Slow (reported as a violation by the check functions) when it does not return"
+    import signal
+    _limit_memory()
+    old = signal.signal(signal.SIGVTALRM, _alarm)
+    # after 3 time-outs in this process the alarm drops to 0.3 s (still > 20x the slowest regular call): a tree on which
+    # expansions blow up must not stall the whole run
+    signal.setitimer(signal.ITIMER_VIRTUAL, TIMEOUT if _TIMEOUTS[0] < 3 else 0.3)
+    try:
+        try:
+            return f()
+        finally:
+            signal.setitimer(signal.ITIMER_VIRTUAL, 0)
+            signal.signal(signal.SIGVTALRM, old)
+    except _Timeout:
+        _TIMEOUTS[0] += 1
+        raise _Slow('%s did not return within %.0f s of CPU time' % (what, TIMEOUT))
+
+
+def _reports_slow(check):
+    import functools
+
+    @functools.wraps(check)
+    def wrapper(*args):
+        try:
+            return check(*args)
+        except _Slow as e:
+            return str(e)
+    return wrapper
+
+
 def _expand(abbr, syntax, extra=None):
     from emmet import expand
     cfg = {'type': 'markup', 'syntax': syntax}
     if extra:
         cfg.update(json.loads(json.dumps(extra)))
-    return expand(abbr, cfg)
+    return _timed(lambda: expand(abbr, cfg), 'expand(%r, %s)' % (abbr, json.dumps(cfg, sort_keys=True, default=repr)[:200]))
 
 
 # ------------------------------------------------------------------------------------------------ F clauses
@@ -83,6 +148,7 @@ def check_key(table, raw_key):
     return None
 
 
+@_reports_slow
 def check_alias(syntax, name, options):
     d = definitions(syntax)[name]
     extra = {'options': options} if options else None
@@ -255,6 +321,7 @@ def alias_form(name, attrs, text, close, rep, child):
     return name + attrs + text + rep + ('/' if close else '') + child
 
 
+@_reports_slow
 def check_decorated(syntax, name, defn, deco, context, snippets):
     attrs, text, close, rep, child = deco
     sp = spell(defn, attrs, text, close, rep, child)
@@ -344,14 +411,6 @@ def has_reachable_cycle(table, name):
     return dfs(name)
 
 
-class _Timeout(BaseException):
-    pass
-
-
-def _alarm(signum, frame):
-    raise _Timeout()
-
-
 def _guarded_expand(abbr, cfg):
     """(outcome, max nesting of snippets.resolve frames)"""
     import signal
@@ -392,6 +451,7 @@ def _guarded_expand(abbr, cfg):
     return out, state['max'], state['seen']
 
 
+@_reports_slow
 def check_user_table(table, abbrs):
     """table: user snippets; abbrs: abbreviations to expand under it"""
     n = len(table)
@@ -497,6 +557,7 @@ FIXED_HISTORIES = [
 ]
 
 
+@_reports_slow
 def check_alias_after(history, syntax, names, share_cache):
     """run the history (every exception swallowed), then every name must still expand like its definition; with
     share_cache one `cache` dict is passed to every call of the case (history and comparisons)"""
@@ -512,13 +573,15 @@ def check_alias_after(history, syntax, names, share_cache):
 
     for abbr, extra in history:
         try:
-            expand(abbr, cfg(extra))
+            _timed(lambda: expand(abbr, cfg(extra)), 'history call expand(%r)' % abbr)
+        except _Slow:
+            raise
         except Exception:
             pass
     defs = definitions(syntax)
     for name in names:
-        a = expand(name, cfg({}))
-        b = expand(defs[name], cfg({}))
+        a = _timed(lambda: expand(name, cfg({})), 'after the history %r: expand(%r)' % (history, name))
+        b = _timed(lambda: expand(defs[name], cfg({})), 'after the history %r: expand(%r)' % (history, defs[name]))
         if a != b:
             return 'syntax %s, after the calls %s%s: expand(%r) = %r but expand(definition %r) = %r' % (
                 syntax, '; '.join('expand(%r, %s)' % (x, json.dumps(e, sort_keys=True)) for x, e in history),
